@@ -379,6 +379,19 @@ def apply(an, st, t, args, dkey, dty, sid):
                         st.diffs[(ta[1], sid)] = -ta[2]
             _set(an, st, dkey, v)
             return HANDLED
+        if meth in ("rem_euclid", "div_euclid") and ib is not None and ib[0] > 0 and ib[1] != INF:
+            # positive divisor: 0 <= a.rem_euclid(m) < m ; a.div_euclid(m) lies between a/m rounded down for the interval ends
+            if meth == "rem_euclid":
+                v = _fresh_int(an, st, ity, sid, (0, ib[1] - 1))
+                tb = st.term(args[1])
+                if tb is not None and tb[0] == "s":
+                    st.diffs[(sid, tb[1])] = tb[2] - 1
+            else:
+                lo = ia[0] // ib[0] if ia[0] != -INF and ia[0] >= 0 else (ia[0] if ia[0] != -INF else r[0])
+                hi = ia[1] // ib[0] if ia[1] != INF and ia[1] >= 0 else (0 if ia[1] != INF else r[1])
+                v = _fresh_int(an, st, ity, sid, (max(lo, r[0]) if lo != -INF else r[0], min(hi, r[1])))
+            _set(an, st, dkey, v)
+            return HANDLED
         if meth == "clamp" and len(args) == 3:
             il, ih = st.itv(args[1]), st.itv(args[2])
             v = _fresh_int(an, st, ity, sid, (il[0], ih[1]))
@@ -484,6 +497,36 @@ def apply(an, st, t, args, dkey, dty, sid):
         st.syms[isid] = (0, (1 << 63) - 2)
         st.vals["(%s as Some).0.0" % dkey] = V(ty="usize", sym=(isid, 0))
         return HANDLED
+    # ---- u8 / char class predicates: on the true edge the value lies in the class's range ------------------------------------------
+    mcls = None
+    for n in names:
+        mcls = mcls or re.search(r"<impl (u8|char)>::(is_ascii_digit|is_ascii_uppercase|is_ascii_lowercase|is_ascii)$", n)
+    if mcls and args:
+        rng = {"is_ascii_digit": (48, 57), "is_ascii_uppercase": (65, 90), "is_ascii_lowercase": (97, 122), "is_ascii": (0, 127)}[mcls.group(2)]
+        x = args[0]
+        if x.ref_to is not None:
+            x = st.vals.get(x.ref_to) or V()
+        tx = st.term(x)
+        v = V(ty="bool")
+        if tx is not None:
+            v.cond = ("And", ("Ge", tx, ("c", rng[0])), ("Le", tx, ("c", rng[1])))
+        _set(an, st, dkey, v)
+        return HANDLED
+    # ---- widening integer conversions keep the value ---------------------------------------------------------------------------------------
+    mfrom = None
+    for n in names:
+        mfrom = mfrom or re.search(r"<impl std::convert::From<(u8|u16|u32|bool|char)> for (u16|u32|u64|u128|usize|i16|i32|i64|i128|isize)>::from$", n)
+    if mfrom and len(args) == 1 and mfrom.group(1) not in ("char",):
+        src_bits = {"bool": 1, "u8": 8, "u16": 16, "u32": 32}[mfrom.group(1)]
+        dst = mfrom.group(2)
+        dst_bits = 64 if dst.endswith("size") else int(re.sub(r"\D", "", dst))
+        if dst_bits > src_bits or (dst_bits == src_bits and dst[0] == "u"):
+            a0 = args[0]
+            nv = V(ty=dst, const=a0.const, sym=a0.sym)
+            if nv.const is None and nv.sym is None:
+                nv = _fresh_int(an, st, dst, sid, (0, (1 << src_bits) - 1))
+            _set(an, st, dkey, nv)
+            return HANDLED
     # ---- slice::binary_search*: Ok(i) => i < len, Err(i) => i <= len (the closure argument only compares) -------------------------
     if m(r"core::slice::<impl \[T\]>::binary_search(_by|_by_key)?$"):
         st.kill_prefix(dkey)
